@@ -830,7 +830,7 @@ func (x *fnv) checkInvariants(s *State, lp *loopCtx, phase string, pos token.Pos
 		if label == "" {
 			label = fmt.Sprintf("%d", i+1)
 		}
-		g := env.evalBool(cl.Expr)
+		g := env.goal(cl.Expr)
 		x.oblige(s, fmt.Sprintf("inv.%d.%s", lp.ord, phase), label, g, pos, cl)
 	}
 }
@@ -842,7 +842,7 @@ func (x *fnv) assumeInvariants(s *State, lp *loopCtx) {
 	env := x.newSpecEnv(s, x.entry, x.pkg.PkgPath)
 	x.bindLocals(env, lp)
 	for _, cl := range lp.lc.Invariants {
-		s.Assume(env.evalBool(cl.Expr))
+		s.Assume(env.assumption(cl.Expr))
 	}
 }
 
